@@ -225,7 +225,11 @@ def _rows_check(args):
 
     loads = args["loads"]
     coords = [tuple(c) for c in args["coords"]]
-    design = _NS(ghe=_NS(hourly_extraction_ground_loads=loads, gFunction=_NS(bore_locations=coords)))
+    # the design object as the table builders see it; the load analysis of the GHE may belong to a leap year (load_years=[2020]) - the table's labels are the
+    # non-leap calendar all the same
+    leap = [0, 31, 29, 31, 30, 31, 30, 31, 31, 30, 31, 30, 31]
+    design = _NS(ghe=_NS(hourly_extraction_ground_loads=loads, gFunction=_NS(bore_locations=coords), hybrid_load=_NS(days_in_month=leap, years=[2020]), load_years=[2020]),
+                 load_years=[2020])
     om = OutputManager.__new__(OutputManager)
     rows = om.get_hourly_loading_data(design)
     if len(rows) != len(loads) + 1:
@@ -244,7 +248,7 @@ def _rows_gen(rng):
     return {"loads": [round(rng.uniform(-1e5, 1e5), 1) for _ in range(n)], "coords": [(rng.uniform(0, 100), rng.uniform(0, 100)) for _ in range(rng.randint(1, 40))]}
 
 
-native(f"{OM}.get_hourly_loading_data", _rows_check, _rows_gen, None, bound="random load lists of 0/1/25/745/8760 entries and random fields of 1..40 boreholes")
+native(f"{OM}.get_hourly_loading_data", _rows_check, _rows_gen, None, bound="random load lists of 0/1/25/745/8760 entries and random fields of 1..40 boreholes; the GHE's load analysis belongs to a leap year")
 
 
 # ---- get_summary_object (C12) ---------------------------------------------------------------------------------
